@@ -12,7 +12,7 @@ use progress::{AnalysisProgressReporter, AnalysisProgressSession};
 use semantic::SemanticHighlighter;
 use std::{
     collections::HashMap,
-    panic::{self, AssertUnwindSafe},
+    panic::AssertUnwindSafe,
     path::{Path, PathBuf},
     sync::{
         Arc,
@@ -59,10 +59,14 @@ impl<T> AnalysisTask<T> {
     fn run(operation: impl FnOnce() -> T) -> Self {
         // The operation owns a disposable Salsa snapshot. Cancellation drops
         // that snapshot, while `Cancelled::catch` resumes every unrelated panic.
+        // `PropagatedPanic` is a cancellation as well: an analysis that waits
+        // for a query running on another snapshot receives it when that
+        // snapshot unwinds, which is also how a cancelled snapshot ends. If the
+        // other thread did panic, the repeated analysis runs the query itself
+        // and fails with the panic proper.
         match salsa::Cancelled::catch(AssertUnwindSafe(operation)) {
             | Ok(output) => Self::Completed(output),
-            | Err(salsa::Cancelled::Local | salsa::Cancelled::PendingWrite) => Self::Cancelled,
-            | Err(cancelled) => panic::resume_unwind(Box::new(cancelled)),
+            | Err(_cancelled) => Self::Cancelled,
         }
     }
 }
